@@ -35,6 +35,33 @@ class Program:
         self.opaque = set()
         self._model_cache = {}
 
+    def find(self, which, name):
+        """the function `name` of crate `which`; if it is not at that path any more (moved to another module), the
+        unique function of the crate with the same last two path segments (Type::method), else the same last segment"""
+        f = self.by_name.get((which, name))
+        if f is not None:
+            return f
+        segs = name.split("::")
+        for n in (2, 1):
+            if len(segs) < n:
+                continue
+            tail = "::".join(segs[-n:])
+            if n == 1 and (tail[:1].isupper() or tail in ("new", "default", "run", "parse", "clear")):
+                continue
+            c = [v for (w, k), v in self.by_name.items() if w == which and (k == tail or k.endswith("::" + tail)) and "{closure" not in k]
+            if len(c) == 1:
+                return c[0]
+        return None
+
+    def find_adt(self, name):
+        """the type `name`; if it moved to another module, the unique type with the same own name"""
+        a = self.adts.get(name)
+        if a is not None:
+            return a
+        tail = name.rsplit("::", 1)[-1]
+        c = [v for k, v in self.adts.items() if k.rsplit("::", 1)[-1] == tail]
+        return c[0] if len(c) == 1 else None
+
     def fn(self, which, name):
         return self.by_name[(which, name)]
 
